@@ -18,6 +18,7 @@ enum {
    MSGCLS_NESTED,       // nesting depth 3-6
    MSGCLS_SHAPED,       // one of 10 fixed shapes with varying values (template-cache hits, zlib back-references)
    MSGCLS_COMMON,       // only the type repertoire common to the C mini/micro codecs
+   MSGCLS_MANYFIELDS,   // field and item COUNTS at container boundaries: 254..258, 511..513, 1023..1025 (rarely 65535..65537) small fields; one field with such a count of items
    NUM_MSGCLS
 };
 
@@ -62,7 +63,7 @@ inline void AddRandomField(muscle::Message & m, Rng & r, const char * fn, int de
 }
 } // namespace
 
-inline muscle::MessageRef GenMessage(uint64_t gseed, int cls)
+inline muscle::MessageRef GenMessage(uint64_t gseed, int cls, int shapeOverride = -1)   // shapeOverride (SHAPED only): use that shape number instead of drawing one
 {
    using namespace muscle;
    using namespace msggen_detail;
@@ -86,7 +87,7 @@ inline muscle::MessageRef GenMessage(uint64_t gseed, int cls)
       case MSGCLS_NESTED: return Gen(r, 1 + (int) r.below(3), 0, 3 + (int) r.below(4), false, 30);
       case MSGCLS_SHAPED:
       {
-         const uint32 shape = r.below(10);
+         const uint32 drawn = r.below(10); const uint32 shape = (shapeOverride >= 0) ? ((uint32) shapeOverride % 10) : drawn;
          Rng sr(shape*7919+1, "shape");   // the shape depends on the shape number only
          MessageRef m = GetMessageFromPool(shape);
          const int nf = 1 + (int) sr.below(5);
@@ -119,6 +120,16 @@ inline muscle::MessageRef GenMessage(uint64_t gseed, int cls)
          return m;
       }
       case MSGCLS_COMMON: return Gen(r, (int) r.below(6), 0, 2, true, 40);
+      case MSGCLS_MANYFIELDS:
+      {
+         static const uint32 counts[] = {254, 255, 256, 257, 258, 511, 512, 513, 1023, 1024, 1025, 127, 128, 129, 100};
+         static const uint32 huge[] = {65535, 65536, 65537};
+         const uint32 nf = r.oneIn(30) ? huge[r.below(3)] : counts[r.below(15)];
+         MessageRef m = GetMessageFromPool((uint32) r.below(6));
+         for (uint32 i=0; i<nf; i++) {char fn[16]; snprintf(fn, sizeof(fn), "k%u", i); if ((i % 7) == 3) (void) m()->AddBool(fn, (i & 8) != 0); else (void) m()->AddInt32(fn, (int32)(i*2654435761u));}
+         if (r.oneIn(2)) {const uint32 ni = counts[r.below(15)]; for (uint32 i=0; i<ni; i++) (void) m()->AddInt8("items", (int8) i);}
+         return m;
+      }
       default:            return Gen(r, 1, 0, 1, false, 8);
    }
 }
